@@ -39,7 +39,7 @@ ORCH = 'chainables.orchestrate'
 
 
 def run(ctx: Ctx):
-  for r in (r1, r2, r3, r4, r6):
+  for r in (r1, r2, r3, r4, r6, r7):
     ctx.guard(r)
   from mlmverif.props import c09
   ctx.include('R-C03-5', 'the sharded strategies (thread sub-shards, make(shard='
@@ -331,10 +331,90 @@ def r6(ctx: Ctx, scope=ONEPASS_SCOPE, rule='R-C03-6', floor=20):
   ctx.floor(rule, floor, n)
 
 
+def r7(ctx: Ctx, rule='R-C03-7'):
+  ctx.rule(rule, 'a chain hands every stage the COMBINED aggregation state:'
+           ' each TransformRunner method that ChainedRunner calls with its own'
+           ' state argument for every aggregating stage must tolerate entries'
+           ' of other stages — inside its loop over the state\'s items a lookup'
+           ' `self.agg_fns[<key>.metrics]` is guarded by a membership test (or'
+           ' is a `.get` + test), as its siblings merge_states and the'
+           ' iterator\'s state filter already are; otherwise a chain with two'
+           ' aggregating stages raises KeyError instead of reporting a result')
+  repo = ctx.repo
+  ch = repo.cls(TR, 'ChainedRunner')
+  tr = repo.cls(TR, 'TransformRunner')
+  fanout: dict[str, ast.AST] = {}
+  for m in ch.methods.values():
+    ps = set(m.params()[1:])
+    for comp in ast.walk(m.node):
+      if not isinstance(comp, (ast.GeneratorExp, ast.ListComp, ast.DictComp, ast.SetComp, ast.For)):
+        continue
+      it = comp.generators[0].iter if not isinstance(comp, ast.For) else comp.iter
+      tgt = comp.generators[0].target if not isinstance(comp, ast.For) else comp.target
+      if 'named_aggs' not in unparse(it) and '_runners' not in unparse(it):
+        continue
+      if not isinstance(tgt, ast.Name):
+        continue
+      for c in ast.walk(comp):
+        if isinstance(c, ast.Call) and isinstance(c.func, ast.Attribute) and isinstance(
+            c.func.value, ast.Name) and c.func.value.id == tgt.id and c.args and isinstance(
+                c.args[0], ast.Name) and c.args[0].id in ps and c.func.attr in tr.methods:
+          fanout[c.func.attr] = c
+  if not fanout:
+    raise AnalysisError(f'{rule}: ChainedRunner does not fan a state out to its stages')
+  n = 0
+  for name, site in sorted(fanout.items()):
+    fi = tr.methods[name]
+    sp = fi.params()[1] if len(fi.params()) > 1 else None
+    loops = [l for l in ast.walk(fi.node) if isinstance(l, ast.For) and isinstance(l.iter, ast.Call)
+             and isinstance(l.iter.func, ast.Attribute) and l.iter.func.attr == 'items'
+             and isinstance(l.target, ast.Tuple) and l.target.elts and isinstance(l.target.elts[0], ast.Name)]
+    for l in loops:
+      kv = l.target.elts[0].id
+      for x in ast.walk(l):
+        if isinstance(x, ast.Subscript) and unparse(x.value) == 'self.agg_fns' and unparse(x.slice) == f'{kv}.metrics':
+          n += 1
+          from mlmverif.core import parent_map
+          pm = parent_map(l)
+          guarded = False
+          q = x
+          while q is not l and q is not None:
+            par = pm.get(q)
+            if isinstance(par, ast.If) and f'{kv}.metrics' in unparse(par.test) and 'agg_fns' in unparse(par.test) and (
+                not any(y is x for y in ast.walk(par.test))):
+              guarded = True
+            q = par
+          # `if key.metrics not in self.agg_fns: continue` earlier in the body
+          for st in l.body:
+            if isinstance(st, ast.If) and f'{kv}.metrics not in self.agg_fns' in unparse(st.test) and any(
+                isinstance(b, ast.Continue) for b in st.body) and st.lineno < x.lineno:
+              guarded = True
+          if guarded:
+            ctx.ok(rule, fi, f'TransformRunner.{name}: lookup by {kv}.metrics guarded by membership', x)
+          else:
+            ctx.fail(rule, fi, f'TransformRunner.{name}: self.agg_fns[{kv}.metrics] only for the runner\'s own metrics',
+                     f'ChainedRunner passes the combined state of all stages to'
+                     f' TransformRunner.{name} (`{unparse(site)[:40]}`), which indexes'
+                     f' `self.agg_fns[{kv}.metrics]` for every entry: an entry of another'
+                     ' aggregating stage raises KeyError, so a chain of named stages'
+                     ' with two aggregates has no result where the fused pipeline'
+                     ' has one (and the distributed merge crashes)', node=x)
+        if isinstance(x, ast.Call) and unparse(x.func) == 'self.agg_fns.get':
+          n += 1
+          ctx.ok(rule, fi, f'TransformRunner.{name}: tolerant lookup `{unparse(x)[:40]}`', x)
+  ctx.floor(rule, 2, n)
+
+
 from mlmverif.selfcheck import B, OK  # noqa: E402
 
 _T = 'chainables/transform.py'
 VARIANTS = [
+    B('revert-get-result-foreign-keys', _T,
+      '      if key.metrics not in self.agg_fns:\n        continue\n      outputs = self.agg_fns[key.metrics].get_result(fn_state)',
+      '      outputs = self.agg_fns[key.metrics].get_result(fn_state)', 'R-C03-7'),
+    B('merge-states-indexes-foreign-keys', _T,
+      '        if agg_fn := self.agg_fns.get(key.metrics):',
+      '        if agg_fn := self.agg_fns[key.metrics]:', 'R-C03-7'),
     B('chained-merge-streams-states-to-every-stage', _T,
       '    states = list(states)\n    if strict_states_cnt and len(states) != strict_states_cnt:',
       '    if strict_states_cnt and False:', 'R-C03-6'),
